@@ -247,14 +247,12 @@ def labels_and_project(repo: Repo, rep, P: str):
     wf = repo.own_method(mm, "specialized_iff_chunks")
     ws = norm(wf)
     rep.func(f"{MM}.MetaModule.specialized_iff_chunks / load_chunk")
-    # writer label numbering: enumerate(self.user_defined, START)
-    start = None
-    for n in walk_no_nested(wf):
-        if isinstance(n, ast.For) and isinstance(n.iter, ast.Call) and norm(n.iter.func) == "enumerate" and norm(n.iter.args[0]) == "self.user_defined":
-            try:
-                start = repo.fold(n.iter.args[1], ci=mm, sf=mm.file) if len(n.iter.args) > 1 else 0
-            except NotConst:
-                start = None
+    # writer label numbering: the chunk numbers written from `label` (start … start + MAX − 1)
+    from . import c02 as _c02
+    from .. import codec
+    nums, _problems = _c02.writer_numbers_for(repo, mm)
+    lab = [x for x in nums if x.field == "label"]
+    start = lab[0].lo if lab else None
     ll = repo.own_method(mm, "load_label")
     ls = norm(ll)
     off = None
@@ -266,6 +264,12 @@ def labels_and_project(repo: Repo, rep, P: str):
             return alg.Poly.sym("n")
         if isinstance(e, ast.Name) and e.id in ldefs:
             return alg.to_poly(ldefs[e.id], lleaf)
+        try:
+            v = repo.fold(e, ci=mm, sf=mm.file)
+            if isinstance(v, int) and not isinstance(v, bool):
+                return alg.Poly.const(v)
+        except NotConst:
+            pass
         return None
     for n in walk_no_nested(ll):
         if isinstance(n, ast.Subscript) and norm(n.value) == "self.user_defined":
@@ -293,8 +297,12 @@ def labels_and_project(repo: Repo, rep, P: str):
         rep.violation(f"{P}.R2", f"{rel}:MetaModule.load_chunk", f"{start}→{tgt_lo}, {(start or 8) + MAXN - 1}→{tgt_hi}, {(start or 8) - 1}→{tgt_below}",
                       "label chunk numbers are not dispatched to load_label exactly", rel)
     # label text cstring on both sides
-    if "controller.label.encode(rv.ENCODING) + b'\\x00'" in ws and "data.decode(rv.ENCODING)" in ls and "data.find(0)" in ls:
+    wrows = [r for r in codec.writer_rows(repo, mm, wf) if r.kind == "chunk" and r.cid == "CHDT" and r.payload and "label" in r.payload.text]
+    cd = codec.cstring_decode(ll, "chunk.chdt")
+    if wrows and wrows[0].payload.shape == "cstring" and cd is not None and "label" in norm(cd[0].targets[0]):
         rep.ok(f"{P}.R2", f"{rel}:MetaModule.load_label", "label: encode + NUL ↔ cut at NUL, decode")
+    elif not wrows or cd is None:
+        rep.inconclusive(f"{P}.R2", f"{rel}:MetaModule.load_label", ls[:160], "label text codec not recognised on one side", f"{rel}:{ll.lineno}")
     else:
         rep.violation(f"{P}.R2", f"{rel}:MetaModule.load_label", ls[:160], "labels must be stored as NUL-terminated text and decoded the same way", rel)
     if "if controller.attached(self) and controller.label is not None:" in ws:
@@ -310,20 +318,41 @@ def labels_and_project(repo: Repo, rep, P: str):
     else:
         rep.violation(f"{P}.R2", f"{rel}:MetaModule.chnk", f"chnk = {v}", f"CHNK must be {start} + {MAXN} (labels go up to {start} + {MAXN - 1})", rel)
     # embedded project
-    if "yield (b'CHNM', pack('<I', 0))" in ws and "yield (b'CHDT', self.project.read())" in ws:
+    if any(x.field == "project" and x.lo == x.hi == 0 for x in nums):
         rep.ok(f"{P}.R2", f"{rel}:MetaModule.specialized_iff_chunks", "CHNM 0: self.project.read()", "embedded project written with the project writer (C01 applies recursively)")
     else:
         rep.violation(f"{P}.R2", f"{rel}:MetaModule.specialized_iff_chunks", ws[:200], "the embedded project must be written as chunk 0 via Project.read()", rel)
-    lp = norm(repo.own_method(mm, "load_project"))
-    if "self.project = read_sunvox_file(BytesIO(chunk.chdt))" in lp:
-        rep.ok(f"{P}.R2", f"{rel}:MetaModule.load_project", "self.project = read_sunvox_file(BytesIO(chunk.chdt))", "nested load through the guarded entry (any depth)")
+    from ..packed import subst_locals
+    proj_loads = []
+    map_loads = []
+    for mname, mfn in mm.methods.items():
+        for n in walk_no_nested(mfn):
+            if isinstance(n, ast.Assign) and any(norm(t) == "self.project" for t in n.targets) and isinstance(n.value, ast.Call) \
+                    and norm(n.value.func) == "read_sunvox_file" and mname != "__init__":
+                proj_loads.append((mname, mfn, n))
+            if isinstance(n, ast.Assign) and any(norm(t) == "self.mappings.bytes" for t in n.targets) and mname != "__init__":
+                map_loads.append((mname, mfn, n))
+    tgt0, _ = chnm.reader_target(repo, mm, 0)
+    if proj_loads and tgt0 == "project":
+        mname, mfn, n = proj_loads[0]
+        arg = norm(subst_locals(mfn, n.value.args[0])) if n.value.args else ""
+        if arg.replace("io.", "") == "BytesIO(chunk.chdt)":
+            rep.ok(f"{P}.R2", f"{rel}:MetaModule.{mname}", "self.project = read_sunvox_file(BytesIO(chunk.chdt))", "nested load through the guarded entry (any depth)")
+        else:
+            rep.inconclusive(f"{P}.R2", f"{rel}:MetaModule.{mname}", norm(n), "the source of the nested load is not BytesIO(chunk.chdt)", f"{rel}:{n.lineno}")
     else:
-        rep.violation(f"{P}.R2", f"{rel}:MetaModule.load_project", lp[:160], "the embedded project must be loaded through read_sunvox_file", rel)
-    lc = norm(repo.own_method(mm, "load_chunk"))
-    if "self.mappings.reset()" in lc and "self.mappings.bytes = chunk.chdt" in lc:
-        rep.ok(f"{P}.R2", f"{rel}:MetaModule.load_chunk", "mappings.reset(); mappings.bytes = chdt")
+        rep.violation(f"{P}.R2", f"{rel}:MetaModule.load_project", f"chunk 0 → `{tgt0 or 'nothing'}`; loads: {[m for m, _, _ in proj_loads]}",
+                      "the embedded project must be loaded through read_sunvox_file", rel)
+    tgt1, _ = chnm.reader_target(repo, mm, 1)
+    if map_loads and tgt1 == "mappings":
+        mname, mfn, n = map_loads[0]
+        resets = [c for c in walk_no_nested(mfn) if isinstance(c, ast.Call) and norm(c.func) == "self.mappings.reset" and c.lineno <= n.lineno]
+        if norm(n.value) == "chunk.chdt" and resets:
+            rep.ok(f"{P}.R2", f"{rel}:MetaModule.{mname}", "mappings.reset(); mappings.bytes = chdt")
+        else:
+            rep.violation(f"{P}.R2", f"{rel}:MetaModule.{mname}", norm(mfn)[:200], "mappings must be reset and loaded from chunk 1", rel)
     else:
-        rep.violation(f"{P}.R2", f"{rel}:MetaModule.load_chunk", lc[:200], "mappings must be reset and loaded from chunk 1", rel)
+        rep.violation(f"{P}.R2", f"{rel}:MetaModule.load_chunk", f"chunk 1 → `{tgt1 or 'nothing'}`", "mappings must be reset and loaded from chunk 1", rel)
     ma = mm.nested.get("MappingArray")
     if ma is not None:
         try:
